@@ -9,6 +9,7 @@ record violations; they never raise into the code under test.
 from __future__ import annotations
 
 import collections
+import copy
 import functools
 import sys
 import traceback
@@ -41,6 +42,7 @@ class Session:
         self.bound = collections.Counter()  # name -> number of bindings replaced
         self.max_violations = 200
         self.case_hooks = []  # callables run at the start of every case
+        self.handed_out = []  # (function name, result object, copy taken when it was handed out) for container results
 
     # -- per-case housekeeping ----------------------------------------------
     def begin_case(self, case):
@@ -54,6 +56,19 @@ class Session:
             h()
 
     def end_case(self):
+        # time-shifted damage: a container of strings handed out by a query must still hold what it held when it was
+        # handed out (plus whatever the *caller* did to it - the drivers register that through note_caller_mutation)
+        for fn_name, obj, snap in self.handed_out:
+            try:
+                same = obj == snap
+            except Exception:  # noqa: BLE001
+                same = False
+            self.counters["eval:handed-out-result-stable"] += 1
+            if not same:
+                props = RESULT_OWNERS.get(fn_name, [self.prop] if self.prop else [])
+                violation(props, "handed-out-result-stable", f"result-of-{fn_name}-changed-after-it-was-returned",
+                          function=fn_name, returned=snap, now=obj)
+        self.handed_out = []
         self.case = None
         self.events = []
         self.registry = []
@@ -62,6 +77,21 @@ class Session:
 
 
 S = Session()
+
+
+RESULT_OWNERS = {"expand_all": ["C02"], "expand_pair_all": ["C02"]}
+
+
+def _string_container(x):
+    return isinstance(x, (list, set, dict)) and len(x) < 64 and all(isinstance(e, str) for e in x) and (
+        not isinstance(x, dict) or all(isinstance(v, str) for v in x.values()))
+
+
+def note_caller_mutation(obj):
+    """The driver changed a handed-out result itself: refresh the copy it is compared with at the end of the case."""
+    for i, (fn_name, o, _snap) in enumerate(S.handed_out):
+        if o is obj:
+            S.handed_out[i] = (fn_name, o, copy.copy(o))
 
 
 class OneShot:
@@ -285,6 +315,8 @@ def make_wrapper(fn_name, orig, monitors, materialize=None):
         if ev is not None:
             ev["outcome"] = ("ret", rv)
         _run_post(ctxs, fn_name, ("ret", rv), args, kwargs)
+        if S.depth == 0 and _string_container(rv) and len(S.handed_out) < 300:
+            S.handed_out.append((fn_name, rv, copy.copy(rv)))
         return rv
 
     wrapper.__rtmon_orig__ = orig
